@@ -2,6 +2,12 @@
 """Regenerates /verif/MANIFEST.json from the table below (one row per claimed property)."""
 import json, subprocess
 CHECKS = {
+ "C12": ("A", "bounded-exhaustive enumeration of shorthand/expansion rule pairs x word space; oracle: structural equality of the two runs of the real interpreter",
+         "26 k mechanically produced pairs: every condensed rule over small input/output/environment pools vs its sub-rules on consecutive lines; `_,X` for every X of <= 2 (3) items vs `X_, _mirror(X)`; every group letter vs the manual's matrix in input, context, exception, structure, set and romaniser on every segment of the IPA table; every optional `(X,M:N)`, `(X)`, `(X,N)`, `(X,0)` for 8 contents, 0<=M<=N<=3, both sides of `_`, 6 continuations, context and exception, vs the environment set of explicit repetitions; `A B > &` vs `A=1 B=2 > 2 1`; each pair on every word of W(I4,4) (thorough W(I4,5)): 60 M comparisons.",
+         "The expansion is produced by the harness from the manual's definitions; group matrices are frozen in the harness. `A B > &` vs variables is only claimed for words without long segments.", "DESIGN.md §5 C12"),
+ "C13": ("A", "exhaustive application of every documented respelling operator (one occurrence at a time and all at once) to every rule of the grammar and to a frozen synonym table; oracle: equal results or same error variant through run()",
+         "Every rule of rulegen(3) (thorough: plus the frozen rule corpus) is respelled with each operator at each occurrence and at all occurrences (arrows, `|`/`//`, `*`/`∅`, ellipsis forms, angle brackets, spaces inside matrices, trailing comments, alpha renaming, variable renumbering) and compared on 10 words; all 177 feature spellings of the frozen synonym table are substituted into 14+ rule templates covering every matrix position and into romaniser and deromaniser templates, on every third (thorough: every) segment of the IPA table; 40 word respelling pairs (stress, length, `;`, doubling, `^`, the 20 input aliases) under 6 rule lists. 5.6 M comparisons.",
+         "Synonym table frozen in fixtures/feature_synonyms.json (not read from the tree under test). Rules whose own run crashes (C02) are skipped and counted. `tone:NN` is not spaced out.", "DESIGN.md §5 C13"),
  "C01": ("C", "exhaustive exploration of the environment nondeterminism (HashMap iteration order of the IPA table) through a harness-owned seam, one fresh process per order class, plus in-process call histories",
          "The only nondeterminism in the crate is the iteration order of the std HashMap behind the IPA table. The verif seam lets the harness choose that order; 367 orders (sorted, reversed, each grapheme first) provably produce every outcome any of the 365! orders can (DESIGN §5 C01). Each runs in a fresh process and renders every bundle of base + <= 1 (2) diacritics and every single-feature change, normally and through the `+` romaniser path, plus a corpus of run() calls; all observations must be identical. 16 further processes leave the order to the real hash seed (replay check for maps the seam does not own). In-process: every call repeated, interleaved with every other call, every permutation of word lists.",
          "The reduction argument affects completeness only. The 16 unseeded processes are a replay check, not exhaustive. Trusts that no other source of nondeterminism (clocks, randomness, threads) exists in the crate: none is imported.", "DESIGN.md §5 C01"),
